@@ -351,6 +351,7 @@ func main() {
 		"transactions, duplicate ids) written through the real Store.InsertLogs onto minipg executing the current schema text; " +
 		"non-trivial = at least 3 accepted entries, at least 2 transactions and some non-empty volumes read; distinct by the JSON of the history"
 	eng, note := loadSchema()
+	loadSystemSchema()
 	if note != "" {
 		r.Sum.Notes = append(r.Sum.Notes, note)
 	}
